@@ -160,6 +160,33 @@ func c09Canon(o object.PanObject) string {
 	return "val:" + safeInspect(o)
 }
 
+// small key pool with non-scalar members so that duplicates occur inside one literal, between the literal and an
+// unpacked operand, and between two unpacked operands
+var c09KeyPool = []c09Val{{"1", "i1"}, {"'a", "sa"}, {"nil", "n"}, {"[1, 2]", "[i1;i2]"}, {"[]", "[]"}, {"{x: 1}", "{x=i1}"}, {"{}", "{}"}, {"1.0", "f1"}}
+
+func c09PoolMap(c *Ctx, depth int) c09Val {
+	ss, es := []string{}, []string{}
+	for i, n := 0, c.Rng.Intn(4); i < n; i++ {
+		k := c09KeyPool[c.Rng.Intn(len(c09KeyPool))]
+		v := c09Scalar(c)
+		ss = append(ss, k.src+": "+v.src)
+		es = append(es, k.enc+"="+v.enc)
+	}
+	if depth > 0 {
+		for i, n := 0, c.Rng.Intn(4); i < n; i++ {
+			var o c09Val
+			if c.Rng.Intn(4) == 0 {
+				o = c09Obj(c, 0, 3)
+			} else {
+				o = c09PoolMap(c, depth-1)
+			}
+			ss = append(ss, "**"+o.src)
+			es = append(es, "*"+o.enc)
+		}
+	}
+	return c09Val{"%{" + strings.Join(ss, ", ") + "}", "%{" + strings.Join(es, ";") + "}"}
+}
+
 func genC09(c *Ctx) {
 	n := 500
 	if c.Thorough() {
@@ -172,7 +199,11 @@ func genC09(c *Ctx) {
 		isMap := c.Rng.Bool()
 		var lit c09Val
 		if isMap {
-			lit = c09Map(c, 2, 7)
+			if c.Rng.Intn(3) == 0 {
+				lit = c09PoolMap(c, 2)
+			} else {
+				lit = c09Map(c, 2, 7)
+			}
 		} else {
 			lit = c09Obj(c, 2, 7)
 		}
